@@ -432,4 +432,79 @@ theorem otsuData_scale (c : Rat) (hc : 0 < c) (xs : List Rat) (n : Nat) (h : min
   apply otsuHist_scale c hc
   simp [uniformEdges_length]
 
+/-! ### no division by zero: the end bins are never empty -/
+
+theorem sumR_nonneg (l : List Rat) (h : ∀ x ∈ l, 0 ≤ x) : 0 ≤ sumR l := by
+  induction l with
+  | nil => simp
+  | cons a l ih =>
+    have := h a (by simp)
+    have := ih (fun x hx => h x (by simp [hx]))
+    simp only [sumR_cons]; linarith
+
+theorem le_sumR_of_mem (l : List Rat) (h : ∀ x ∈ l, 0 ≤ x) (a : Rat) (ha : a ∈ l) : a ≤ sumR l := by
+  induction l with
+  | nil => simp at ha
+  | cons b l ih =>
+    simp only [sumR_cons]
+    have hb := h b (by simp)
+    have hl := sumR_nonneg l (fun x hx => h x (by simp [hx]))
+    rcases List.mem_cons.mp ha with rfl | ha'
+    · linarith
+    · have := ih (fun x hx => h x (by simp [hx])) ha'
+      linarith
+
+theorem class_weights_pos (hist : List Nat) (h0 : 1 ≤ hist.getD 0 0)
+    (hl : 1 ≤ hist.getD (hist.length - 1) 0) (i : Nat) (hi : i + 1 < hist.length) :
+    0 < sumR ((hist.map (fun (k : Nat) => (k : Rat))).take (i + 1)) ∧
+    0 < sumR ((hist.map (fun (k : Nat) => (k : Rat))).drop (i + 1)) := by
+  have hnn : ∀ (l : List Rat), (∀ x ∈ l, x ∈ hist.map (fun (k : Nat) => (k : Rat))) → ∀ x ∈ l, 0 ≤ x := by
+    intro l hsub x hx
+    obtain ⟨k, -, rfl⟩ := List.mem_map.mp (hsub x hx)
+    exact Nat.cast_nonneg k
+  constructor
+  · have hmem : ((hist.getD 0 0 : Nat) : Rat) ∈ (hist.map (fun (k : Nat) => (k : Rat))).take (i + 1) := by
+      rw [List.mem_iff_getElem]
+      refine ⟨0, by simp; omega, ?_⟩
+      simp [List.getD_eq_getElem?_getD, List.getElem?_eq_getElem (show 0 < hist.length by omega)]
+    have := le_sumR_of_mem _ (hnn _ (fun x hx => List.mem_of_mem_take hx)) _ hmem
+    have h1 : (1 : Rat) ≤ ((hist.getD 0 0 : Nat) : Rat) := by exact_mod_cast h0
+    linarith
+  · have hmem : ((hist.getD (hist.length - 1) 0 : Nat) : Rat) ∈ (hist.map (fun (k : Nat) => (k : Rat))).drop (i + 1) := by
+      rw [List.mem_iff_getElem]
+      refine ⟨hist.length - 1 - (i + 1), by simp; omega, ?_⟩
+      simp only [List.getElem_drop, List.getElem_map]
+      have e : i + 1 + (hist.length - 1 - (i + 1)) = hist.length - 1 := by omega
+      simp [List.getD_eq_getElem?_getD, e, List.getElem?_eq_getElem (show hist.length - 1 < hist.length by omega)]
+    have := le_sumR_of_mem _ (hnn _ (fun x hx => List.mem_of_mem_drop hx)) _ hmem
+    have h1 : (1 : Rat) ≤ ((hist.getD (hist.length - 1) 0 : Nat) : Rat) := by exact_mod_cast hl
+    linarith
+
+theorem binOf_lo (lo hi : Rat) (n : Nat) (h : lo < hi) : binOf lo hi n lo = 0 := by
+  unfold binOf
+  have : Rat.floor 0 = 0 := by decide
+  simp [ne_of_lt h, this]
+
+theorem binOf_hi (lo hi : Rat) (n : Nat) : binOf lo hi n hi = n - 1 := by
+  unfold binOf
+  simp
+
+theorem histogram_end_bins (xs : List Rat) (n : Nat) (hn : 2 ≤ n) (h : minL xs < maxL xs) :
+    (histogram xs n).1.length = n ∧ 1 ≤ (histogram xs n).1.getD 0 0 ∧
+      1 ≤ (histogram xs n).1.getD (n - 1) 0 := by
+  have hne : xs ≠ [] := by
+    intro h0; subst h0; simp [minL, maxL] at h
+  unfold histogram
+  rw [histRange_of_lt xs h]
+  simp only
+  refine ⟨by simp, ?_, ?_⟩
+  · simp only [List.getD_eq_getElem?_getD, List.getElem?_map, List.getElem?_range (show 0 < n by omega)]
+    simp only [Option.map_some, Option.getD_some]
+    apply List.count_pos_iff.mpr
+    exact List.mem_map.mpr ⟨minL xs, (minL_spec xs hne).1, binOf_lo _ _ n h⟩
+  · simp only [List.getD_eq_getElem?_getD, List.getElem?_map, List.getElem?_range (show n - 1 < n by omega)]
+    simp only [Option.map_some, Option.getD_some]
+    apply List.count_pos_iff.mpr
+    exact List.mem_map.mpr ⟨maxL xs, (maxL_spec xs hne).1, binOf_hi _ _ n⟩
+
 end Pew.Otsu
